@@ -16,6 +16,8 @@ pub struct Args {
     pub verbose: bool,
     /// multiplies thorough budgets (VERIF_SCALE), for long background sweeps
     pub scale: u64,
+    /// multiplies quick budgets (set per property by the driver)
+    pub qscale: u64,
 }
 impl Args {
     pub fn parse() -> Args {
@@ -28,6 +30,7 @@ impl Args {
             only: None,
             verbose: false,
             scale: 1,
+            qscale: 1,
         };
         let v: Vec<String> = std::env::args().collect();
         let mut i = 1;
@@ -52,6 +55,10 @@ impl Args {
                 }
                 "--scale" => {
                     a.scale = nxt(i).parse().unwrap_or(1).max(1);
+                    i += 1;
+                }
+                "--qscale" => {
+                    a.qscale = nxt(i).parse().unwrap_or(1).max(1);
                     i += 1;
                 }
                 "--out" => {
@@ -83,7 +90,7 @@ impl Args {
         let total = if self.thorough {
             thorough * self.scale
         } else {
-            quick
+            quick * self.qscale
         };
         (0..total)
             .filter(|i| i % self.nshards == self.shard)
